@@ -111,7 +111,7 @@ def run_table_uncached(binary, kinds=("model", "class")):
     return subsets, table, jm
 
 
-def write_gen_table(table):
+def write_gen_table(table, jm):
     def row(r):
         if r.startswith("ERR"):
             return "(-1)"
@@ -132,6 +132,14 @@ def write_gen_table(table):
             names.append("rows_%s_%d" % (k, i // 64))
             text.append("Definition %s : list Z := [%s]." % (names[-1], "; ".join(rows[i:i + 64])))
         text.append("Definition gen_rows_%s : list Z := concat [%s].\n" % (k, "; ".join(names)))
+    for k in ("model", "class"):
+        codes = ["(-1)" if x is None else str(int(x[0]) + 2 * int(x[1])) for x in jm[k]]
+        names = []
+        for i in range(0, len(codes), 256):
+            names.append("jm_%s_%d" % (k, i // 256))
+            text.append("Definition %s : list Z := [%s]." % (names[-1], "; ".join(codes[i:i + 256])))
+        text.append("(* per row: 1 if an inherent to_json is emitted + 2 if an inherent from_json is emitted *)")
+        text.append("Definition gen_jm_%s : list Z := concat [%s].\n" % (k, "; ".join(names)))
     body = "\n".join(text)
     path = os.path.join(vlib.COQ, "C20", "GenTable.v")
     old = open(path).read() if os.path.exists(path) else None
@@ -158,6 +166,7 @@ class Decl:
         self.name, self.kind, self.derives, self.fields, self.caps = name, kind, derives, fields, caps
         self.values = []
         self.special = False
+        self.with_method = False      # method-less classes get their to_json/from_json like models (repaired finding)
 
     def src(self):
         s = ""
@@ -166,8 +175,7 @@ class Decl:
         s += "%s %s:\n" % (self.kind, self.name)
         for f, t in self.fields:
             s += "    %s: %s\n" % (f, ity(t))
-        if self.kind == "class":
-            # a class without methods gets no impl block, hence no to_json/from_json (finding class-json-methods)
+        if self.kind == "class" and self.with_method:
             s += "\n    def nm(self) -> int:\n        return %d\n" % len(self.fields)
         return s
 
@@ -330,6 +338,7 @@ CAP_SETS = [
     (["Hash", "Eq", "Deserialize", "Serialize", "Default"], 1),
     (["Serialize", "Eq"], 1),
     (["Eq", "Ord", "Hash"], 1),
+    (["PartialOrd", "Serialize", "Deserialize"], 1),
 ]
 
 
@@ -340,6 +349,8 @@ def caps_of(derives):
         s.add("PartialEq")
     if "Ord" in s:
         s |= {"PartialOrd", "Eq", "PartialEq"}
+    if "PartialOrd" in s:
+        s.add("PartialEq")
     s |= {"Debug", "Clone"}
     return s
 
@@ -360,6 +371,7 @@ def gen_decls(rng, n, tag):
         fnames = rng.sample(names, nf)
         d = Decl("%s%d" % (tag, i), kind, derives, [], caps)
         d.special = False
+        d.with_method = rng.random() < 0.5
         depth = 0 if i == 0 else rng.choice([1, 2, 2, 3])
         for fn in fnames:
             d.fields.append((fn, gen_type(rng, caps, decls, depth)))
@@ -382,7 +394,16 @@ def special_decls(tag):
     ff.values = [("S", ff.name, [("f", 0.1), ("fs", [1.5, -2.25]), ("of", None)]),
                  ("S", ff.name, [("f", 123456789.125), ("fs", []), ("of", ("some", 0.30000000000000004))]),
                  ("S", ff.name, [("f", 0.0), ("fs", [9007199254740992.0, 0.001]), ("of", ("some", -0.5))])]
-    return [oo, ff]
+    # regression witnesses of the repaired findings: PartialOrd alone; a method-less class with serde derives
+    po = Decl(tag + "PoOnly", "model", ["PartialOrd"], [("a", ("int",)), ("s", ("str",))], caps_of(["PartialOrd"]))
+    po.special = True
+    po.values = [("S", po.name, [("a", 1), ("s", "b")]), ("S", po.name, [("a", 1), ("s", "a")]),
+                 ("S", po.name, [("a", -1), ("s", "z")]), ("S", po.name, [("a", 1), ("s", "b")])]
+    cj = Decl(tag + "ClsJson", "class", ["Serialize", "Deserialize", "PartialEq"], [("x", ("int",)), ("t", ("opt", ("str",)))],
+              caps_of(["Serialize", "Deserialize", "PartialEq"]))
+    cj.special = True
+    cj.values = [("S", cj.name, [("x", 1), ("t", None)]), ("S", cj.name, [("x", -5), ("t", ("some", "é\""))])]
+    return [oo, ff, po, cj]
 
 
 # ---------------------------------------------------------------- Python semantics (the oracle)
@@ -1115,27 +1136,23 @@ def run(chk):
     # ---- tie (a): the derive table, exhaustively, from the real code
     t0 = time.time()
     subsets, table, jm = run_table(binary)
-    thash, changed = write_gen_table(table)
+    thash, changed = write_gen_table(table, jm)
     chk.coverage["derive_table"] = {"rows": 2 * len(subsets), "sha1": thash, "extract_s": round(time.time() - t0, 1)}
-    known_rows = {"derive-partialord": 0, "derive-display": 0, "class-json-methods": 0}
+    known_rows = {"derive-display": 0}
+    class_hits = {"partialord_alone": 0, "methodless_class_with_serde": 0}
     # to_json / from_json are generated by emit_impl, i.e. only where an impl block is lowered
-    for kind in ("model", "class", "modelm", "classm"):
+    for kind in ("modelm", "classm"):
         for req in ([], ["Serialize"], ["Deserialize"], ["Serialize", "Deserialize"], ["Deserialize", "Eq", "Serialize", "Ord"]):
-            full = table_row_full(binary, kind, req) if kind.endswith("m") else None
-            flags = tuple(full.split("|")[1:3]) if full else jm[kind][subsets.index([d for d in DECORATORS if d in req])]
+            flags = tuple(table_row_full(binary, kind, req).split("|")[1:3])
             want = (str(int("Serialize" in req)), str(int("Deserialize" in req)))
             chk.count_case(("jsonmethods", kind, tuple(req), flags))
             if flags != want:
-                if kind == "class" and flags == ("0", "0"):
-                    known_rows["class-json-methods"] += 1
-                    if is_known(chk, "class-json-methods"):
-                        continue
                 fails.append({"record": "jsonmethods %s %s" % (kind, ",".join(req) or "-"),
-                              "decl": "@derive(%s)\n%s M:\n    x: int\n" % (", ".join(req), kind),
+                              "decl": "@derive(%s)\n%s M:\n    x: int\n    def nm(self) -> int: ...\n" % (", ".join(req), kind[:-1]),
                               "why": "inherent (to_json, from_json) emitted = %s, the derives require %s" % (flags, want)})
     for kind in ("model", "class"):
-        for req, row in zip(subsets, table[kind]):
-            chk.count_case(("table", kind, tuple(req), row), nontrivial=not row.startswith("ERR"))
+        for req, row, flags in zip(subsets, table[kind], jm[kind]):
+            chk.count_case(("table", kind, tuple(req), row, flags), nontrivial=not row.startswith("ERR"))
             case = {"record": "table %s %s" % (kind, ",".join(req) or "-"), "decl": "@derive(%s)\n%s M:\n    x: int\n" % (", ".join(req), kind), "emitted": row}
             if row.startswith("ERR"):
                 case["why"] = "the compiler pipeline rejects a declaration deriving only vocabulary names: " + row
@@ -1143,20 +1160,23 @@ def run(chk):
                 continue
             e = [x for x in row.split(",") if x]
             why = py_closed(e)
+            if known_partialord(req):
+                class_hits["partialord_alone"] += 1
             missing = [d for d in req if d != "Validate" and d not in e]
             if missing:
                 why.append("requested derives not emitted: %s" % missing)
             unknown = [x for x in e if x not in DCODE]
             if unknown:
                 why.append("emitted names outside the vocabulary: %s" % unknown)
-            if why == ["PartialOrd needs PartialEq"] and known_partialord(req):
-                known_rows["derive-partialord"] += 1
-                if is_known(chk, "derive-partialord"):
-                    why = []
             if "Display" in e:
                 known_rows["derive-display"] += 1
                 if not is_known(chk, "derive-display"):
                     why.append("`Display` is not a derive macro in scope of the generated file")
+            want = (str(int("Serialize" in req)), str(int("Deserialize" in req)))
+            if kind == "class" and want != ("0", "0"):
+                class_hits["methodless_class_with_serde"] += 1
+            if flags != want:
+                why.append("inherent (to_json, from_json) emitted = %s, the derives require %s" % (flags, want))
             if why:
                 case["why"] = "; ".join(why)
                 fails.append(case)
@@ -1225,7 +1245,7 @@ def run(chk):
                             continue
                     chk.known(fid, "%s: %s" % (fid, f["summary"]))
             elif fid == "class-json-methods":
-                if known_rows["class-json-methods"]:
+                if tuple(table_row_full(binary, "class", ["Serialize", "Deserialize"]).split("|")[1:3]) != ("1", "1"):
                     if chk.tier == "thorough":
                         st, out = compile_and_run(binary, scratch, "c20_w_classjson" + suffix, f["witness"])
                         if st != "rustc":
@@ -1254,6 +1274,7 @@ def run(chk):
     chk.coverage["traces_validated_against_impl"] = n_model + (2 * len(subsets) if pres["proofs_ok"] else 0)
     chk.coverage["correspondence_mismatches"] = len(corr)
     chk.coverage["known_class_hits"] = {k: (v if isinstance(v, int) else len(v)) for k, v in list(res["known_hits"].items()) + list(known_rows.items())}
+    chk.coverage["repaired_class_rows_checked"] = class_hits
 
     fails.sort(key=lambda f: (0, len(f["record"])) if f["record"].startswith(("table", "jsonmethods")) else (1, 0))
     for f in fails[:20]:
